@@ -6,7 +6,7 @@ from .. import common, tlc, programs, session, obs, perturb, render
 from ..framework import Check, pmap, MachineryError
 
 LEVEL = "model_checking"
-QUICK_CAP = {"C04": 5000, "C11": 5000, "C14": 5000, "C07": 6000, "C08": 6000, "C13": 4000, "C15": 1200}
+QUICK_CAP = {"C04": 5000, "C11": 6000, "C14": 6000, "C07": 6000, "C08": 6000, "C13": 4000, "C15": 1200}
 SIM_NUM = {"quick": 40, "thorough": 1500}
 CASE_TIMEOUT_S = 30
 
